@@ -17,9 +17,9 @@ RandAmtIn(x, vals, comms) ==
     LET v    == Pick(vals)
         n    == Pick({ k \in Notations : NotationOK(v[1], v[2], k) })
         comm == Pick(comms)
-        lower == comm # 0 /\ Commodities[comm].k = "lower"
+        lower == comm # 0 /\ CommoditiesX[comm].k = "lower"
         side == IF comm = 0 \/ lower THEN "R" ELSE Pick({"L", "R"})
-        sym  == comm # 0 /\ Commodities[comm].k = "symbol"
+        sym  == comm # 0 /\ CommoditiesX[comm].k = "symbol"
         sp   == IF comm = 0 THEN FALSE ELSE IF side = "R" /\ ~sym THEN TRUE ELSE Coin(2, x)
         neg  == Coin(2, x)
     IN [neg |-> neg, m |-> v[1], sc |-> v[2], n |-> n, comm |-> comm, side |-> side, sp |-> sp,
@@ -33,7 +33,7 @@ RandCmt(x) == IF Coin(2, x) THEN [free |-> Pick(1..Len(FreeTexts)), tags |-> <<>
 
 (* Clean region: a lower-case word commodity is only written as the last thing before the end of the
    line or a comment (trigger lower-commodity-before-operator covers the other placements). *)
-NoLower == { c \in 0..Len(Commodities) : c = 0 \/ Commodities[c].k # "lower" }
+NoLower == { c \in 0..Len(Commodities) : c = 0 \/ CommoditiesX[c].k # "lower" }
 RandPost(x) ==
     LET hasAmt  == ~Coin(4, x)
         hasCost == hasAmt /\ Coin(5, x)
